@@ -260,7 +260,17 @@ class C08(core.PropBase):
             return ["raise", exn_family(e)] if "huge" not in case else ["family", exn_family(e)]
         if "huge" in case:
             return ["family", "accepted"]
-        return ["ok", list(r)]
+        vals = list(r)
+        # the set the expression denotes, asked the other way round: `v in r` for every value and its neighbours
+        valset = set(vals)
+        probes = sorted(valset | {v + d for v in vals[:300] for d in (-1, 1)})[:900]
+        try:
+            wrong = [v for v in probes if (v in r) != (v in valset)]
+        except BaseException as e:  # noqa: BLE001
+            wrong = ["raise", type(e).__name__]
+        if wrong:
+            return ["ok", vals, ["`in` disagrees with iteration for", wrong[:10]]]
+        return ["ok", vals]
 
     def requests(self, case):
         if "huge" in case:
